@@ -51,7 +51,7 @@ class Prop:
             "result that needed >= 2 terms; distinct = distinct sha256 of the event log")
     probes = ["k2", "k3", "k4", "herm_adjpair", "herm_sandwich", "herm_nonadjoint", "domain_float", "domain_tracer",
               "result_one", "result_zero", "result_value", "multi_term_result", "discipline_checked", "highest_order_checked", "highest_order_truth_checked",
-              "op_array", "op_view", "repeat_cached", "op_mul", "op_rmul", "known0_pattern", "known_finding_signature_hits"]
+              "op_array", "op_view", "repeat_cached", "op_mul", "op_rmul", "known0_pattern", "view_factor", "known_finding_signature_hits"]
     components_real = ["pymablock.series.cauchy_dot_product, product_by_order, BlockSeries"]
     components_stub = ["factor series eval callbacks (simulator-owned tables, call log)", "element multiplication wrapper (logging)",
                        "tracer element type (exact free *-algebra)"]
@@ -99,6 +99,9 @@ class Prop:
         cap = {1: 4, 2: 3, 3: 2}[ninf]
         case = {"K": K, "ninf": ninf, "dims": dims, "herm": herm, "domain": domain, "op": opname, "factors": factors,
                 "sizes": [r.choice([1, 2]) for _ in range(3)], "cap": cap}
+        if r.random() < 0.12:
+            # a factor handed over as a finite-index *view* of the caller's series (full slices / permutation-free lists)
+            case["view_factor"] = [r.randrange(K), r.choice(["ss", "ls", "sl"])]
         # schedule
         orders = [n for n in itertools.product(range(MAXO[ninf] + 1), repeat=ninf) if sum(n) <= cap]
         ops = []
@@ -265,6 +268,15 @@ class Prop:
         else:
             base = _op.mul if case["op"] == "mul" else _op.matmul
 
+        roots = list(factors)  # the caller's own series (a factor may be handed over as a view of one)
+        vf = case.get("view_factor")
+        if vf and vf[0] < K:
+            k, kind = vf
+            rows = list(range(dims[k])) if kind[0] == "l" else slice(None)
+            cols = list(range(dims[k + 1])) if kind[1] == "l" else slice(None)
+            factors[k] = factors[k][rows, cols]
+            bump("view_factor")
+
         def oper(a, b):
             mlog[0] += 1
             events.append(("m",))
@@ -313,7 +325,7 @@ class Prop:
                 chain = (i, *mids, j)
                 for split in splittings(tuple(n), K):
                     idxs = [(chain[k], chain[k + 1], *split[k]) for k in range(K)]
-                    present = [idxs[k] in factors[k] for k in range(K)]
+                    present = [idxs[k] in roots[k] for k in range(K)]
                     for k in range(K):
                         if all(present[m] for m in range(K) if m != k):
                             out.add((k, idxs[k]))
@@ -405,7 +417,9 @@ class Prop:
             if all(c in requested for c in must) and new:
                 fail("cached-product-reevaluates", f"op#{opi} {op}: repeated request evaluated factor elements {new[:3]}")
             requested.update(must)
-            # (3) discipline
+            # (3) discipline (not for view factors: a packed view evaluates the whole block row/column of an order)
+            if vf:
+                new = []
             req_orders = {c[2:] for c in must}
             truth = None
             for (k, idx) in new:
@@ -462,7 +476,7 @@ class Prop:
             value_ops += 1
             events.append(("ret", opi, fingerprint(norm(res))))
             sig = 0
-            for si, s in enumerate([P, *factors]):
+            for si, s in enumerate([P, *roots]):
                 if any(v is PENDING for v in s._data.values()):
                     fail("pending-left", f"op#{opi} {op}: in-flight marker left in {s.name}")
                 sig ^= hash((si, frozenset(s._data)))
